@@ -126,6 +126,36 @@ func (d *bankIO) flip() {
 func (d *bankIO) In(p uint8) uint8     { d.flip(); return d.ports.In(p) }
 func (d *bankIO) Out(p uint8, v uint8) { d.flip(); d.ports.Out(p, v) }
 
+// romMem is an embedder's memory built by embedding the package's DumbMemory and overriding Get and Set: the
+// lower 16 KiB are ROM (stores ignored), every access is counted. Whatever unexported or optional method the
+// embedded type may carry along, the CPU talks to this type through Get and Set.
+type romMem struct {
+	z80.DumbMemory
+	gets, sets int
+}
+
+func (m *romMem) Get(a uint16) uint8 { m.gets++; return m.DumbMemory.Get(a) }
+func (m *romMem) Set(a uint16, v uint8) {
+	m.sets++
+	if a >= 0x4000 {
+		m.DumbMemory.Set(a, v)
+	}
+}
+
+// latchIO embeds DumbIO and overrides In and Out likewise (port 0x10 is write-protected, accesses counted).
+type latchIO struct {
+	z80.DumbIO
+	ins, outs int
+}
+
+func (d *latchIO) In(p uint8) uint8 { d.ins++; return d.DumbIO.In(p) ^ 0x0F }
+func (d *latchIO) Out(p uint8, v uint8) {
+	d.outs++
+	if p != 0x10 {
+		d.DumbIO.Out(p, v)
+	}
+}
+
 // concKinds: the concrete memories of the pass.
 var concKinds = []struct {
 	name string
@@ -139,6 +169,8 @@ var concKinds = []struct {
 	// forms only): whichever object the implementation lets serve the rest of the instruction, it must not
 	// depend on whether the memories arrive as the concrete type or behind a wrapper
 	{"DumbMemory len 65536, bank switch on port access", -1},
+	// the embedder's devices EMBED the package's helper types and override the interface methods
+	{"a type embedding DumbMemory that overrides Get/Set (ROM below 4000h), a type embedding DumbIO that overrides In/Out", -3},
 }
 
 type concRunner struct {
@@ -154,10 +186,26 @@ type concRunner struct {
 	a2, b2       *concMem
 	wrapB2       *opaqueMem
 	bankA, bankB *bankIO
+	romA, romB   *romMem
+	latA, latB   *latchIO
 }
 
 func newConcRunner(bg *[65536]uint8, kind int) *concRunner {
 	r := &concRunner{kind: kind}
+	if concKinds[kind].n == -3 {
+		r.a, r.b = newConcMem(bg, 65536), newConcMem(bg, 65536)
+		r.romA, r.romB = &romMem{DumbMemory: r.a.dm}, &romMem{DumbMemory: r.b.dm}
+		r.wrapB = &opaqueMem{m: r.romB}
+		r.cpuA.Memory, r.cpuB.Memory = r.romA, r.wrapB
+		r.ioInit = make([]uint8, 256)
+		for i := range r.ioInit {
+			r.ioInit[i] = bg[0x4000+i*3]
+		}
+		r.ioA, r.ioB = make(z80.DumbIO, 256), make(z80.DumbIO, 256)
+		r.latA, r.latB = &latchIO{DumbIO: r.ioA}, &latchIO{DumbIO: r.ioB}
+		r.cpuA.IO, r.cpuB.IO = r.latA, &opaqueIO{r.latB}
+		return r
+	}
 	if concKinds[kind].n == -1 {
 		bg2 := obs.NewBackground(0x5EED0003)
 		r.a, r.b = newConcMem(bg, 65536), newConcMem(bg, 65536)
@@ -258,6 +306,13 @@ func (r *concRunner) one(cs *Case) []string {
 			}
 		}
 	}
+	if r.romA != nil {
+		if r.romA.gets != r.romB.gets || r.romA.sets != r.romB.sets || r.latA.ins != r.latB.ins || r.latA.outs != r.latB.outs {
+			d = append(d, fmt.Sprintf("calls of the overriding methods differ: handed over directly Get x%d Set x%d In x%d Out x%d ; behind an opaque wrapper Get x%d Set x%d In x%d Out x%d (the embedded helper type was reached past the embedder's own methods)", r.romA.gets, r.romA.sets, r.latA.ins, r.latA.outs, r.romB.gets, r.romB.sets, r.latB.ins, r.latB.outs))
+		}
+		r.romA.gets, r.romA.sets, r.romB.gets, r.romB.sets = 0, 0, 0, 0
+		r.latA.ins, r.latA.outs, r.latB.ins, r.latB.outs = 0, 0, 0, 0
+	}
 	if r.bankA != nil {
 		if i := firstDiff(r.a2.dm, r.b2.dm); i >= 0 {
 			d = append(d, fmt.Sprintf("contents of the second bank differ at index %#x: unwrapped %02X, wrapped %02X (before the Step: %02X)", i, r.a2.dm[i], r.b2.dm[i], r.a2.pristine[i]))
@@ -269,7 +324,7 @@ func (r *concRunner) one(cs *Case) []string {
 	if i := firstDiff(r.ioA, r.ioB); i >= 0 {
 		d = append(d, fmt.Sprintf("DumbIO contents differ at port %02X: unwrapped %02X, wrapped %02X", i, r.ioA[i], r.ioB[i]))
 	}
-	if _, ok := r.cpuA.Memory.(z80.DumbMemory); r.a != nil && r.bankA == nil && !ok {
+	if _, ok := r.cpuA.Memory.(z80.DumbMemory); r.a != nil && r.bankA == nil && r.romA == nil && !ok {
 		d = append(d, "CPU.Memory was replaced during the Step")
 	}
 	return d
